@@ -21,7 +21,8 @@ theorem Inv.resetFin {s : State} (h : Inv s) (f : Option Block) : Inv (resetFin 
 theorem resetFin_same (s : State) (f : Option Block) :
     (resetFin s f).index = s.index ∧ (resetFin s f).orphans = s.orphans ∧ (resetFin s f).best = s.best ∧
     (resetFin s f).tds = s.tds ∧ (resetFin s f).stored = s.stored ∧ (resetFin s f).margin = s.margin ∧
-    (resetFin s f).recSeq = s.recSeq ∧ (resetFin s f).h2h = s.h2h ∧ (resetFin s f).last = s.last := by
+    (resetFin s f).recSeq = s.recSeq ∧ (resetFin s f).h2h = s.h2h ∧ (resetFin s f).last = s.last ∧
+    (resetFin s f).txIdx = s.txIdx := by
   unfold resetFin
   split
   · split <;> simp
@@ -163,7 +164,9 @@ theorem reorgTo_spec {s : State} (hi : Inv s) {b : Block} (hb : b ∈ s.index) :
     ∃ s', reorgTo s b (findFork s b) = (s', .main) ∧ Inv s' ∧
       s'.best = chainTo s.index b.height b ∧
       s'.index = s.index ∧ s'.orphans = s.orphans ∧ s'.tds = s.tds ∧ s'.stored = s.stored ∧
-      s'.margin = s.margin ∧ s'.recSeq = s.recSeq ∧ s'.fin = (resetFin s (findFork s b)).fin := by
+      s'.margin = s.margin ∧ s'.recSeq = s.recSeq ∧ s'.fin = (resetFin s (findFork s b)).fin ∧
+      ∃ f pre1 pre2 rf, chainTo s.index b.height b = pre1 ++ f :: rf ∧ s.best = pre2 ++ f :: rf ∧
+        s'.txIdx = pre1.reverse.foldl addTxs (pre2.foldl delTxs s.txIdx) := by
   obtain ⟨f, pre1, pre2, rf, hff, hc1, hb2, hpre1, hgr⟩ := findFork_spec hi hb
   have hs := resetFin_same s (some f)
   have hi0 : Inv (resetFin s (some f)) := hi.resetFin _
@@ -176,9 +179,9 @@ theorem reorgTo_spec {s : State} (hi : Inv s) {b : Block} (hb : b ∈ s.index) :
     rcases List.mem_cons.mp hy with rfl | hy
     · exact hb
     · exact hin1 y hy
-  obtain ⟨s1, hrun1, hi1, hbest1, hsr1⟩ := runSteps_disconnect_inv pre2 hi0 (f := f) (r := rf)
+  obtain ⟨s1, hrun1, hi1, hbest1, hsr1, htx1⟩ := runSteps_disconnect_inv pre2 hi0 (f := f) (r := rf)
     (by rw [hs.2.2.1]; exact hb2)
-  obtain ⟨s2, hrun2, hi2, hbest2, hsr2⟩ := runSteps_connect_inv pre1.reverse hi1
+  obtain ⟨s2, hrun2, hi2, hbest2, hsr2, htx2⟩ := runSteps_connect_inv pre1.reverse hi1
     (fun y hy => by
       rw [hsr1.1, hs.1]
       exact hin1' y (by rw [hc1]; exact List.mem_append_left _ (List.mem_reverse.mp hy)))
@@ -199,6 +202,7 @@ theorem reorgTo_spec {s : State} (hi : Inv s) {b : Block} (hb : b ∈ s.index) :
   · rw [hff]
     exact ⟨hsr.1.trans hs.1, hsr.2.1.trans hs.2.1, hsr.2.2.1.trans hs.2.2.2.1,
       hsr.2.2.2.1.trans hs.2.2.2.2.1, hsr.2.2.2.2.2.1.trans hs.2.2.2.2.2.1,
-      hsr.2.2.2.2.2.2.trans hs.2.2.2.2.2.2.1, hsr.2.2.2.2.1⟩
+      hsr.2.2.2.2.2.2.trans hs.2.2.2.2.2.2.1, hsr.2.2.2.2.1,
+      f, pre1, pre2, rf, hc1, hb2, by rw [htx2, htx1, hs.2.2.2.2.2.2.2.2.2]⟩
 
 end C25
